@@ -50,6 +50,7 @@ pub fn t2_all() -> Vec<T2Profile> {
         t2("t2-corrupt", T2Kind::Corrupt, None),
         t2("t2-ackpressure", T2Kind::AckPressure, None),
         t2("t2-exhaust", T2Kind::Exhaust, Some(false)),
+        t2("t2-graceful", T2Kind::Graceful, Some(false)),
     ]
 }
 
@@ -94,6 +95,13 @@ pub fn t1_fatal() -> T1Profile {
     p
 }
 
+pub fn t1_fatal_push() -> T1Profile {
+    let mut p = t1_fatal();
+    p.name = "t1-fatal-push";
+    p.work.pushes = true;
+    p
+}
+
 pub fn t1_shutdown() -> T1Profile {
     let mut p = T1Profile::base("t1-shutdown");
     p.shutdowns = true;
@@ -115,6 +123,12 @@ pub fn t1_sweep(name: &'static str) -> T1Profile {
     p.pings = true;
     p.idle_check = false;
     p.tiny_buffers = false;
+    p
+}
+
+pub fn t1_sweep_push(name: &'static str) -> T1Profile {
+    let mut p = t1_sweep(name);
+    p.work.pushes = true;
     p
 }
 
@@ -148,6 +162,14 @@ pub fn t1_inject_fatal() -> T1Profile {
     p
 }
 
+pub fn t1_graceful() -> T1Profile {
+    let mut p = T1Profile::base("t1-graceful");
+    p.shutdowns = true;
+    p.graceful_only = true;
+    p.pings = true;
+    p
+}
+
 pub fn t1_push() -> T1Profile {
     let mut p = T1Profile::base("t1-push");
     p.work.pushes = true;
@@ -172,14 +194,18 @@ pub fn all_scenarios() -> Vec<Scenario> {
         Scenario::T1(t1_coop_settings()),
         Scenario::T1(t1_aborts()),
         Scenario::T1(t1_fatal()),
+        Scenario::T1(t1_fatal_push()),
         Scenario::T1(t1_shutdown()),
         Scenario::T1(t1_conc()),
         Scenario::T1(t1_headers()),
+        Scenario::T1(t1_graceful()),
         Scenario::T1(t1_capacity()),
         Scenario::T1(t1_inject()),
         Scenario::T1(t1_inject_fatal()),
         Scenario::T1Sweep(t1_sweep("t1-sweep-quick"), true),
         Scenario::T1Sweep(t1_sweep("t1-sweep-full"), false),
+        Scenario::T1Sweep(t1_sweep_push("t1-sweep-push-quick"), true),
+        Scenario::T1Sweep(t1_sweep_push("t1-sweep-push-full"), false),
     ]
     .into_iter()
     .chain(t2_all().into_iter().map(Scenario::T2))
@@ -245,10 +271,13 @@ pub fn entries_for(prop: &str) -> Vec<Entry> {
         "C07" => vec![
             Entry { scenario: Scenario::T1Sweep(t1_sweep("t1-sweep-quick"), true), quick: 40, thorough: 0 },
             Entry { scenario: Scenario::T1Sweep(t1_sweep("t1-sweep-full"), false), quick: 0, thorough: 400 },
-            e(t1(t1_fatal()), 6000, 200_000),
+            Entry { scenario: Scenario::T1Sweep(t1_sweep_push("t1-sweep-push-quick"), true), quick: 20, thorough: 0 },
+            Entry { scenario: Scenario::T1Sweep(t1_sweep_push("t1-sweep-push-full"), false), quick: 0, thorough: 200 },
+            e(t1(t1_fatal()), 5000, 200_000),
+            e(t1(t1_fatal_push()), 3000, 100_000),
             e(t1(t1_shutdown()), 3000, 100_000),
         ],
-        "C15" => vec![e(t1(t1_shutdown()), 10_000, 300_000), e(t1(t1_fatal()), 2000, 60_000)],
+        "C15" => vec![e(t1(t1_shutdown()), 6000, 250_000), e(t1(t1_graceful()), 4000, 150_000), e(t2s("t2-graceful"), 5000, 200_000), e(t1(t1_fatal()), 1500, 50_000)],
         "C16" => vec![e(t1(t1_capacity()), 8000, 250_000), e(t1(t1_coop_settings()), 3000, 100_000), e(t1(t1_aborts()), 3000, 100_000), e(t1(t1_conc()), 2000, 60_000)],
         "C20" => vec![e(t1(t1_inject()), 12_000, 400_000), e(t1(t1_inject_fatal()), 4000, 100_000)],
         "C08" => vec![e(t2s("t2-corrupt"), 8000, 300_000), e(t2s("t2-violation"), 3000, 100_000), e(t2s("t2-flood"), 1500, 40_000), e(t2s("t2-hpack"), 2000, 60_000), e(t2s("t2-malformed"), 2000, 60_000), e(t1(t1_fatal()), 2000, 60_000)],
@@ -256,9 +285,9 @@ pub fn entries_for(prop: &str) -> Vec<Entry> {
         "C11" => vec![e(t2s("t2-hpack"), 12000, 400_000)],
         "C13" => vec![e(t2s("t2-malformed"), 12000, 400_000)],
         "C18" => vec![e(t2s("t2-flood"), 4000, 100_000)],
-        "C10" => vec![e(t1(t1_headers()), 5000, 200_000), e(t1(t1_coop()), 3000, 100_000), e(t1(t1_push()), 1500, 50_000)],
+        "C10" => vec![e(t1(t1_headers()), 4000, 150_000), e(t1(t1_coop()), 2000, 60_000), e(t2s("t2-ackpressure"), 4000, 150_000), e(t2s("t2-legal"), 3000, 100_000), e(t2s("t2-hpack"), 3000, 100_000), e(t1(t1_push()), 1500, 50_000)],
         "C12" => vec![e(t1(t1_coop()), 3000, 100_000), e(t1(t1_headers()), 3000, 100_000), e(t2s("t2-legal"), 3000, 100_000), e(t2s("t2-violation"), 2000, 60_000), e(t1(t1_aborts()), 1500, 50_000)],
-        "C14" => vec![e(t1(t1_coop_settings()), 5000, 200_000), e(t2s("t2-ackpressure"), 5000, 200_000), e(t2s("t2-violation"), 2000, 60_000), e(t1(t1_aborts()), 2000, 60_000)],
+        "C14" => vec![e(t1(t1_coop_settings()), 5000, 200_000), e(t2s("t2-ackpressure"), 5000, 200_000), e(t1(t1_graceful()), 3000, 100_000), e(t2s("t2-violation"), 2000, 60_000), e(t1(t1_aborts()), 2000, 60_000)],
         "C17" => vec![e(t1(t1_aborts()), 8000, 250_000), e(t1(t1_conc()), 2000, 60_000), e(t1(t1_fatal()), 2000, 60_000)],
         "C19" => vec![e(t1(t1_coop()), 4000, 150_000), e(t1(t1_aborts()), 4000, 150_000), e(t1(t1_conc()), 2000, 60_000), e(t1(t1_push_unadopted()), 1500, 50_000)],
         _ => vec![],
